@@ -6,6 +6,7 @@ import (
 	"bytes"
 	"fmt"
 	"go/ast"
+	"go/build/constraint"
 	"go/importer"
 	"go/parser"
 	"go/token"
@@ -14,6 +15,7 @@ import (
 	"os"
 	"os/exec"
 	"path"
+	"runtime"
 	"sort"
 	"strings"
 	"sync"
@@ -145,6 +147,9 @@ func LoadTree(modPath string, files map[string]string) *Tree {
 		}
 		lp := &LocalPkg{Path: ip, Dir: dir}
 		for _, rel := range rels {
+			if !buildConstraintHolds(files[rel]) {
+				continue // not part of the build in this environment (what `go build` of the user would compile)
+			}
 			f, err := parser.ParseFile(t.Fset, rel, files[rel], parser.ParseComments|parser.SkipObjectResolution)
 			if err != nil {
 				t.Errs = append(t.Errs, err.Error())
@@ -194,6 +199,52 @@ func LoadTree(modPath string, files map[string]string) *Tree {
 		}
 	}
 	return t
+}
+
+var (
+	cgoOnce sync.Once
+	cgoOn   bool
+)
+
+// cgoEnabled asks the go command of this environment (the one moq's children and the user's build see).
+func cgoEnabled() bool {
+	cgoOnce.Do(func() {
+		cmd := exec.Command("go", "env", "CGO_ENABLED")
+		cmd.Env = append(os.Environ(), "GOFLAGS=")
+		out, err := cmd.Output()
+		cgoOn = err == nil && strings.TrimSpace(string(out)) == "1"
+	})
+	return cgoOn
+}
+
+// buildConstraintHolds evaluates the //go:build line of a file (if any) for the default build configuration of
+// this environment: GOOS, GOARCH, the gc compiler, cgo as the go command reports it, all release tags.
+func buildConstraintHolds(src string) bool {
+	for _, ln := range strings.Split(src, "\n") {
+		t := strings.TrimSpace(ln)
+		if t == "" || (strings.HasPrefix(t, "//") && !constraint.IsGoBuild(t)) {
+			continue
+		}
+		if !constraint.IsGoBuild(t) {
+			return true // reached the package clause
+		}
+		x, err := constraint.Parse(t)
+		if err != nil {
+			return true
+		}
+		return x.Eval(func(tag string) bool {
+			switch {
+			case tag == runtime.GOOS, tag == runtime.GOARCH, tag == "gc", tag == "unix" && runtime.GOOS == "linux":
+				return true
+			case tag == "cgo":
+				return cgoEnabled()
+			case strings.HasPrefix(tag, "go1."):
+				return true
+			}
+			return false
+		})
+	}
+	return true
 }
 
 // NewInfo allocates a fully populated types.Info.
